@@ -183,6 +183,9 @@ def c01(prop, tier):
         small = cfg_small(stype, ['a', 'b'], 3 if stype != 'doc' else 2, 1) if (tier == 'thorough' or stype == 'kv') else None
         res = run_core(ck, prop, stype, tier, final_sync=True, small=small, extra={'load_sync': True}, **sz)
         ck.extra['load_then_sync'] = ck.extra.get('load_then_sync', 0) + res.get('stats', {}).get('load_then_sync', 0)
+    # a replica whose writes and merges overlapped against one that received the same entries one after the other (spec/IndexRace.tla)
+    import sched_family
+    sched_family.run_indexrace(ck, prop, tier)
     return ck.finish()
 
 
